@@ -91,8 +91,8 @@ def run(tier: str, seed: int, replay=None) -> int:
     if not model_ok:
         rep.note("model not available; comparing the implementation with the Spec only (search for a failing input)")
     # K_clear: relations are reset by clear() in Spec and model alike, but queries in those histories fall under C13-d;
-    # the shared exhaustive histories also contain Declare / Eval (K_live_drop: C13's finding)
-    results, codes, hd, inst = c13.decide(rep, PROP, hists, model_ok, "relate", {"K_clear": "C13-d", "K_live_drop": "C13-e"})
+    # the shared exhaustive histories also contain Declare / Eval 
+    results, codes, hd, inst = c13.decide(rep, PROP, hists, model_ok, "relate", {"K_clear": "C13-d"})
     rep.extra["distribution"] = c13.distribution(hists)
     rep.extra["reuse"] = c13.reuse_stats(hists, results)
     rep.extra["known_finding_instances"] = inst
